@@ -33,9 +33,10 @@ def dispatch_table():
     checked = 0
     samples = []
     classes = list(model.UNIVERSE)
-    for cls in classes:
+    for cls, style in itertools.product(classes, ("default names", "prefix and fallback renamed")):
         mro = [c for c in cls.__mro__ if c is not object]
-        names = ["visit_" + camel(c.__name__) for c in mro]
+        prefix = "visit_" if style == "default names" else "on_"
+        names = [prefix + camel(c.__name__) for c in mro]
         inst = model_witness(cls)
         for r in range(0, len(names) + 1):
             for subset in itertools.combinations(range(len(names)), r):
@@ -44,6 +45,11 @@ def dispatch_table():
                     def h(self, node, context, _i=i):
                         yield ("handler", _i)
                     ns[names[i]] = h
+                if style != "default names":
+                    # the documented class attributes that rename the handlers and the fallback
+                    ns["visitor_method_prefix"] = prefix
+                    ns["generic_visitor_method_name"] = "fallback"
+                    ns["fallback"] = lambda self, node, context: iter([("fallback",)])
                 Vis = type("Probe", (V.TreeVisitor,), ns)
                 other = type("Other", (V.TreeVisitor,), {names[0]: (lambda self, node, context: iter(()))})
                 a, b, o = Vis(), Vis(), other()
@@ -55,13 +61,14 @@ def dispatch_table():
                         checked += 1
                         got = list(m(inst, {}))
                         ok = (got == [("handler", expect)]) if expect is not None else \
-                            (getattr(m, "__func__", None) is V.TreeVisitor.generic_visit and m.__self__ is v)
+                            ((getattr(m, "__func__", None) is V.TreeVisitor.generic_visit and m.__self__ is v) if style == "default names"
+                             else (got == [("fallback",)] and getattr(m, "__self__", None) is v))
                         if expect is not None:
                             ok = ok and m.__self__ is v
                         if not ok:
-                            fails.append({"id": "%s.%s" % (cls.__name__, "+".join(names[i] for i in subset) or "none"),
-                                          "class": cls.__name__, "handlers": [names[i] for i in subset],
-                                          "expected": names[expect] if expect is not None else "generic_visit",
+                            fails.append({"id": "%s.%s (%s)" % (cls.__name__, "+".join(names[i] for i in subset) or "none", style),
+                                          "class": cls.__name__, "handlers": [names[i] for i in subset], "naming": style,
+                                          "expected": names[expect] if expect is not None else ("generic_visit" if style == "default names" else "fallback"),
                                           "round": rnd, "native_confirmed": True})
                 if len(samples) < 3 and r == 2:
                     samples.append({"class": cls.__name__, "handlers": [names[i] for i in subset],
@@ -71,7 +78,7 @@ def dispatch_table():
             fails.append({"id": "class-cache", "problem": "TreeVisitor._get_method_cache written at class level",
                           "native_confirmed": True})
     return {"ok": not fails, "checked": checked, "failures": fails[:10], "samples": samples, "exhaustive": True,
-            "detail": "node class x subset of MRO handler names x 2 instances x 3 rounds, interleaved with another visitor class"}
+            "detail": "node class x subset of MRO handler names x {default names, renamed prefix and fallback} x 2 instances x 3 rounds, interleaved with another visitor class"}
 
 
 def model_witness(cls):
@@ -171,10 +178,15 @@ def visitor_cases():
                 if p0 is not None:
                     ctx0["path"] = p0
                 snap = dict(ctx0)
+                fsnap = frame.snapshot()
                 out = list(base.visit_iter(v, x, ctx0))
+                written = frame.diff(fsnap, frame.snapshot())
                 children = list(x.children) if x is not T.NONE_ITEM else []
                 key = "C08-V/%s/%s" % (la, kind)
-                obls = [(key + "/node-event-first-with-callers-context",
+                obls = [(key + "/visit-keeps-no-state: only the handler cache is written on the visitor, nothing on classes or modules",
+                         (set(v.__dict__) <= {"track_parents", "_get_method_cache", "visit_iter"} and not written,
+                          {"visitor attributes": sorted(v.__dict__), "written": written[:6]})),
+                        (key + "/node-event-first-with-callers-context",
                          len(events) == 1 and events[0][0] is x and events[0][1] is ctx0),
                         (key + "/each-child-visited-once-in-order",
                          len(stub.calls) == len(children) and all(c[0] is ch for c, ch in zip(stub.calls, children))),
@@ -381,6 +393,8 @@ def plan(tier, seed):
     pl.cases = cache_cases() + visitor_cases() + transformer_cases()
     pl.canaries = [canary()]
     pl.finite = [("C08-D/dispatch-table", dispatch_table), ("C08-U/uniform-loops", lambda: uniform.check(LOOPS))]
+    from vfkit import lean as _leanc
+    pl.finite.append(("A6/Lean re-check of the composition lemmas L-IND", _leanc.compose_check('L-IND')))
     from vfkit import lean as _lean
     pl.finite.append(("A5/Lean re-check of the lifting lemmas for operand runs", _lean.lemma_check))
     ntok = 4 if tier == "quick" else 6
@@ -401,7 +415,7 @@ def plan(tier, seed):
     pl.replay_builder = replay_builder
     pl.assumptions = c01.ASSUMPTIONS
     pl.trusted_base = c01.TRUSTED
-    pl.lemmas = ["L-IND (paper): evts(node, ctx) = [(node, ctx)] ++ concat_j evts(c_j, ctx_j) per class with the child "
+    pl.lemmas = ["L-IND (Lean: lemmas/Compose.lean fold_ind; model link assumed): evts(node, ctx) = [(node, ctx)] ++ concat_j evts(c_j, ctx_j) per class with the child "
                  "visit stubbed by the same contract gives pre-order, each node exactly once, true ancestor chain and "
                  "index path on all finite trees; Copy(x, y) likewise for the default transformer",
                  "uniform loops (F, syntactic): the traversal loops carry no local state between iterations, so a "
